@@ -126,7 +126,10 @@ def main(tier, seed):
         if at("waitthreads", 4) != open_threads:
             bad.append("after %d open/close cycles %s background threads exist" % (c.cycles, at("waitthreads", 4)))
         f1, f2 = at("waitfds", 0), at("waitfds", 1)
-        fdmax = 4 if c.inflight else 2        # the old handle of an in-flight merge also keeps the readers it used for copying
+        # the old handle of an in-flight merge also keeps the readers its writer opened for copying: at most one per data
+        # file that existed when the store was dropped (what must not happen is growth from cycle to cycle)
+        nfiles = len([x for x in (lss[0].split()[1] if lss and " " in lss[0] else "").split(",") if ".data=" in x]) if lss else 0
+        fdmax = 2 + nfiles if c.inflight else 2
         if f1 is None or f2 is None or int(f2.split()[1]) > fdmax or int(f1.split()[1]) > fdmax or int(f2.split()[1]) > int(f1.split()[1]):
             bad.append("descriptors on store files do not go back to 2 (current writer + the surviving old handle) after a reopen: "
                        "%s after 2 cycles, %s after %d cycles" % (f1, f2, c.cycles))
